@@ -1455,6 +1455,93 @@ func (in *inliner) firstHelperCall(p *packages.Package, s ast.Stmt) *ast.CallExp
 // inlineInStmt: if the first call evaluated by s is a helper call, returns the statements to put before s and the rewritten s.
 func (in *inliner) inlineInStmt(p *packages.Package, f *ast.File, s ast.Stmt) ([]ast.Stmt, ast.Stmt, bool) {
 	exprs := hoistExprs(s)
+	// calls evaluated BEFORE a helper call in the same statement are moved into temporaries first, in order, so that
+	// expanding the helper does not reorder anything (`T{A: x.Names(), B: helper(y)}`)
+	var hoisted []ast.Stmt
+	for round := 0; round < 8 && in.laterHelperCall(p, exprs); round++ {
+		moved := false
+		for _, pe := range exprs {
+			slot, cond := in.firstCall(p, pe)
+			if slot == nil {
+				continue
+			}
+			call := (*slot).(*ast.CallExpr)
+			if cond || in.shapeOf(p, call) != nil {
+				break
+			}
+			tv, ok := p.TypesInfo.Types[call]
+			if !ok || tv.Type == nil {
+				break
+			}
+			if _, isTuple := tv.Type.(*types.Tuple); isTuple || tv.IsVoid() {
+				break
+			}
+			inlineSeq++
+			name := fmt.Sprintf("_inl%d_t", inlineSeq)
+			hoisted = append(hoisted, &ast.AssignStmt{Lhs: []ast.Expr{ast.NewIdent(name)}, Tok: token.DEFINE, Rhs: []ast.Expr{call}})
+			*slot = ast.NewIdent(name)
+			moved = true
+			break
+		}
+		if !moved {
+			break
+		}
+	}
+	if len(hoisted) > 0 {
+		pre, ns, ok := in.inlineInStmtCore(p, f, s, exprs)
+		if !ok {
+			return hoisted, s, true
+		}
+		return append(hoisted, pre...), ns, true
+	}
+	return in.inlineInStmtCore(p, f, s, exprs)
+}
+
+// laterHelperCall: the first call evaluated by the statement is not a helper call, but some later one (not inside a
+// function literal, not conditional) is.
+func (in *inliner) laterHelperCall(p *packages.Package, exprs []*ast.Expr) bool {
+	first := true
+	found := false
+	for _, pe := range exprs {
+		var walk func(n ast.Node, cond bool)
+		walk = func(n ast.Node, cond bool) {
+			ast.Inspect(n, func(m ast.Node) bool {
+				if m == nil || found {
+					return false
+				}
+				switch x := m.(type) {
+				case *ast.FuncLit:
+					return false
+				case *ast.BinaryExpr:
+					if x.Op == token.LAND || x.Op == token.LOR {
+						walk(x.X, cond)
+						walk(x.Y, true)
+						return false
+					}
+				case *ast.CallExpr:
+					if in.shapeOf(p, x) != nil {
+						if !first && !cond {
+							found = true
+						}
+						return false
+					}
+				}
+				return true
+			})
+		}
+		slot, _ := in.firstCall(p, pe)
+		if slot != nil && first {
+			if in.shapeOf(p, (*slot).(*ast.CallExpr)) != nil {
+				return false // the helper call comes first: nothing to move
+			}
+			first = false
+		}
+		walk(*pe, false)
+	}
+	return found
+}
+
+func (in *inliner) inlineInStmtCore(p *packages.Package, f *ast.File, s ast.Stmt, exprs []*ast.Expr) ([]ast.Stmt, ast.Stmt, bool) {
 	for _, pe := range exprs {
 		slot, cond := in.firstCall(p, pe)
 		if slot == nil {
@@ -1780,6 +1867,11 @@ func (in *inliner) expand(p *packages.Package, f *ast.File, call *ast.CallExpr, 
 			in.n = inlineSeq
 			name = fmt.Sprintf("%s_u%d", label, in.n)
 		}
+		// `s := s` (same name, same type, never assigned in the helper) would only shadow the caller's variable - which
+		// closures passed as arguments refer to - so it is left out
+		if id, isId := val.(*ast.Ident); isId && bindPlain && id.Name == name && !assignedIn(fd.Body, name) {
+			return
+		}
 		lhs = append(lhs, ast.NewIdent(name))
 		if bindPlain {
 			rhs = append(rhs, val)
@@ -2099,6 +2191,43 @@ func lastElemMatches(path, name string) bool {
 }
 
 func copyExprIdentity(e ast.Expr) ast.Expr { return e }
+
+// assignedIn: the name is assigned, incremented, redeclared or has its address taken somewhere in the body.
+func assignedIn(body *ast.BlockStmt, name string) bool {
+	found := false
+	ast.Inspect(body, func(n ast.Node) bool {
+		switch x := n.(type) {
+		case *ast.AssignStmt:
+			for _, l := range x.Lhs {
+				if id, ok := l.(*ast.Ident); ok && id.Name == name {
+					found = true
+				}
+			}
+		case *ast.IncDecStmt:
+			if id, ok := x.X.(*ast.Ident); ok && id.Name == name {
+				found = true
+			}
+		case *ast.UnaryExpr:
+			if id, ok := x.X.(*ast.Ident); ok && x.Op == token.AND && id.Name == name {
+				found = true
+			}
+		case *ast.RangeStmt:
+			for _, e := range []ast.Expr{x.Key, x.Value} {
+				if id, ok := e.(*ast.Ident); ok && id.Name == name {
+					found = true
+				}
+			}
+		case *ast.ValueSpec:
+			for _, id := range x.Names {
+				if id.Name == name {
+					found = true
+				}
+			}
+		}
+		return !found
+	})
+	return found
+}
 
 // ---- AST copying (positions are dropped so that the printer lays the code out afresh) ----
 
